@@ -535,3 +535,227 @@ Proof.
 Qed.
 
 End Uflm.
+
+(* ---------------------------------------------------------------- batch_update_from_leaf_mutation *)
+Section Buflm.
+Variable D : Type.
+Variable H : D -> D -> D.
+Variable deq : D -> D -> bool.
+Variable dflt : D.
+Hypothesis deq_spec : forall x y, deq x y = true <-> x = y.
+
+Lemma rfc_spec ls i j d (topi topj : nat) m tmax :
+  0 <= i -> 0 <= j < zlength ls ->
+  okb (i / 2 ^ Z.of_nat topi) topi -> okb (j / 2 ^ Z.of_nat topj) topj ->
+  map_ok D H dflt ls j d m tmax ->
+  (forall t, (t < topi)%nat -> meet i j t -> (t <= tmax)%nat) ->
+  forall n s, (s + n <= topi)%nat ->
+  exists b,
+    replace_first_changed D deq m (bpath_from D H dflt ls i s n) (ap_nodes_from i s n) =
+    (bpath_from D H dflt (upd ls j d) i s n, b) /\
+    (b = false -> bpath_from D H dflt (upd ls j d) i s n = bpath_from D H dflt ls i s n) /\
+    (b = true -> bpath_from D H dflt (upd ls j d) i s n <> bpath_from D H dflt ls i s n).
+Proof.
+  intros Hi Hj Hoki Hokj Hm Hcov. induction n as [|n IH]; intros s Hs.
+  - exists false. cbn [bpath_from ap_nodes_from replace_first_changed]. split; [reflexivity|]. split; [reflexivity|discriminate].
+  - cbn [bpath_from ap_nodes_from replace_first_changed].
+    assert (Hsib : okb (sib (i / 2 ^ Z.of_nat s)) s) by (apply (okb_sib i s topi Hoki); [exact Hi|clear - Hs; lia]).
+    rewrite (Hm _ _ Hsib).
+    destruct (IH (S s) ltac:(clear - Hs; lia)) as (b & Hb1 & Hb2 & Hb3).
+    assert (Hhead_out : sib (i / 2 ^ Z.of_nat s) <> j / 2 ^ Z.of_nat s ->
+            broot D H dflt (upd ls j d) (sib (i / 2 ^ Z.of_nat s)) s = broot D H dflt ls (sib (i / 2 ^ Z.of_nat s)) s).
+    { intros Hne. apply broot_upd_out; [destruct Hsib; assumption | destruct Hj; assumption |].
+      intros E. apply Hne. symmetry. exact E. }
+    destruct ((s <=? tmax)%nat && (sib (i / 2 ^ Z.of_nat s) =? j / 2 ^ Z.of_nat s)) eqn:Ec.
+    + apply andb_true_iff in Ec. destruct Ec as [_ Ec]. apply Z.eqb_eq in Ec.
+      assert (Enew : broot D H dflt (upd ls j d) (sib (i / 2 ^ Z.of_nat s)) s = nv D H dflt ls j d s)
+        by (unfold nv; rewrite Ec; reflexivity).
+      assert (Hrest : bpath_from D H dflt (upd ls j d) i (S s) n = bpath_from D H dflt ls i (S s) n).
+      { apply bpath_from_upd_out; [exact Hi | destruct Hj; assumption |].
+        intros t Ht Hmt. assert (Hms : meet i j s) by exact Ec.
+        pose proof (meet_unique i j s t Hi (proj1 Hj) Hms Hmt) as Et. clear - Et Ht. lia. }
+      destruct (deq (broot D H dflt ls (sib (i / 2 ^ Z.of_nat s)) s) (nv D H dflt ls j d s)) eqn:Ed.
+      * apply deq_spec in Ed. cbn [negb]. rewrite Hb1. exists b. rewrite Enew, <- Ed.
+        split; [reflexivity|]. split.
+        -- intros Hbf. rewrite (Hb2 Hbf). reflexivity.
+        -- intros Hbt Heq. apply (Hb3 Hbt). inversion Heq. reflexivity.
+      * cbn [negb]. exists true. rewrite Enew, Hrest. split; [reflexivity|]. split; [discriminate|].
+        intros _ Heq. inversion Heq as [Hh]. rewrite Hh in Ed.
+        assert (deq (nv D H dflt ls j d s) (nv D H dflt ls j d s) = true) by (apply deq_spec; reflexivity). congruence.
+    + assert (Hne : sib (i / 2 ^ Z.of_nat s) <> j / 2 ^ Z.of_nat s).
+      { intros E. apply andb_false_iff in Ec. destruct Ec as [Ec|Ec].
+        - apply Nat.leb_gt in Ec. pose proof (Hcov s ltac:(clear - Hs; lia) E). clear - Ec H0. lia.
+        - apply Z.eqb_neq in Ec. contradiction. }
+      rewrite Hb1. exists b. rewrite (Hhead_out Hne). split; [reflexivity|]. split.
+      * intros Hbf. rewrite (Hb2 Hbf). reflexivity.
+      * intros Hbt Heq. apply (Hb3 Hbt). inversion Heq. reflexivity.
+Qed.
+
+(* which positions of a list of tracked leaves have a changed path *)
+Fixpoint md_spec (old new : list D) (p : Z) (idxs : list Z) (md : list Z) : Prop :=
+  match idxs with
+  | [] => md = []
+  | i :: r =>
+    (path D H dflt new i = path D H dflt old i /\ md_spec old new (p + 1) r md) \/
+    (path D H dflt new i <> path D H dflt old i /\ exists md', md = p :: md' /\ md_spec old new (p + 1) r md')
+  end.
+
+Lemma buflm_proofs_spec ls j d m (hj : nat) :
+  0 <= j < zlength ls -> zlength ls < 2 ^ 63 -> hj = hgt (zlength ls) j ->
+  map_ok D H dflt ls j d m (hj - 1) ->
+  forall idxs p, Forall (fun i => 0 <= i < zlength ls) idxs ->
+  exists md, buflm_proofs D deq p m (map (path D H dflt ls) idxs) idxs =
+             Some (map (path D H dflt (upd ls j d)) idxs, md) /\ md_spec ls (upd ls j d) p idxs md.
+Proof.
+  intros Hj Hl Ehj Hm. induction idxs as [|i idxs IH]; intros p Hall.
+  - exists []. split; reflexivity.
+  - pose proof (Forall_inv Hall) as Hi. pose proof (Forall_inv_tail Hall) as Hall'. cbv beta in Hi.
+    cbn [map buflm_proofs].
+    assert (Hl64 : zlength ls < 2 ^ 64) by (change (2 ^ 63) with 9223372036854775808 in Hl; change (2 ^ 64) with 18446744073709551616; clear - Hl; lia).
+    rewrite (get_node_indices_spec D H dflt ls i Hi Hl). cbn [obind].
+    destruct (path_hgt D H dflt ls i Hi Hl) as [Hpi Hoki].
+    destruct (path_hgt D H dflt ls j Hj Hl) as [Hpj Hokj].
+    pose proof (path_hgt D H dflt (upd ls j d) i) as Hpu. rewrite zlength_upd in Hpu. destruct (Hpu Hi Hl) as [Hpu' _]. clear Hpu.
+    assert (Hcov : forall t, (t < hgt (zlength ls) i)%nat -> meet i j t -> (t <= hgt (zlength ls) j - 1)%nat).
+    { intros t Ht Hmt.
+      assert (E : hgt (zlength ls) j = hgt (zlength ls) i).
+      { apply (hgt_same (zlength ls) i j Hi Hj Hl64).
+        exact (meet_above i j t (hgt (zlength ls) i) (proj1 Hi) (proj1 Hj) Hmt Ht). }
+      clear - E Ht. lia. }
+    rewrite <- Ehj in *.
+    destruct (rfc_spec ls i j d (hgt (zlength ls) i) hj m (hj - 1) (proj1 Hi) Hj Hoki Hokj Hm Hcov
+                       (hgt (zlength ls) i) 0%nat (Nat.le_refl _)) as (b & Hb1 & Hb2 & Hb3).
+    rewrite Hpi. unfold bpath at 1. rewrite Hb1.
+    destruct (IH (p + 1) Hall') as (md & Hmd1 & Hmd2). rewrite Hmd1. cbn [obind].
+    fold (bpath D H dflt (upd ls j d) i (hgt (zlength ls) i)). rewrite <- Hpu'.
+    destruct b.
+    + exists (p :: md). split; [reflexivity|]. cbn [md_spec]. right. split.
+      * rewrite Hpi, Hpu'. apply Hb3. reflexivity.
+      * exists md. auto.
+    + exists md. split; [reflexivity|]. cbn [md_spec]. left. split; [|exact Hmd2].
+      rewrite Hpi, Hpu'. apply Hb2. reflexivity.
+Qed.
+
+Theorem batch_update_from_leaf_mutation_spec ls j d idxs :
+  0 <= j < zlength ls -> zlength ls < 2 ^ 63 -> Forall (fun i => 0 <= i < zlength ls) idxs ->
+  exists md,
+    batch_update_from_leaf_mutation D H deq (map (path D H dflt ls) idxs) idxs (j, d, path D H dflt ls j) =
+    Some (map (path D H dflt (upd ls j d)) idxs, md) /\ md_spec ls (upd ls j d) 0 idxs md.
+Proof.
+  intros Hj Hl Hall. unfold batch_update_from_leaf_mutation.
+  rewrite map_length. rewrite Nat.eqb_refl. cbn [negb].
+  rewrite l2n_bidx by (clear - Hj Hl; lia). cbn [obind].
+  destruct (path_hgt D H dflt ls j Hj Hl) as [Hpj Hokj]. rewrite Hpj. unfold bpath.
+  remember (hgt (zlength ls) j) as hj eqn:Ehj.
+  assert (Hj0 : bidx j 0 = bidx (j / 2 ^ Z.of_nat 0) (Z.of_nat 0)) by (change (2 ^ Z.of_nat 0) with 1; rewrite Z.div_1_r; reflexivity).
+  pose proof (buflm_loop_spec D H dflt ls j d Hj hj Hokj hj 0%nat (dins D [] (bidx j 0) d) eq_refl
+                              (map_ok_init D H dflt ls j d Hj hj Hokj)) as (m' & Hu & Hm').
+  rewrite <- Hj0 in Hu. rewrite (nv_0 D H dflt ls j d Hj) in Hu. rewrite Hu. cbn [obind].
+  cbn [Nat.add] in Hm'.
+  exact (buflm_proofs_spec ls j d m' hj Hj Hl Ehj Hm' idxs 0 Hall).
+Qed.
+
+End Buflm.
+
+(* ---------------------------------------------------------------- verify_batch_update *)
+Lemma zmax_lt : forall l m n, m < n -> Forall (fun x => x < n) l -> zmax l m < n.
+Proof.
+  induction l as [|x l IH]; intros m n Hm Hall; cbn [zmax]; [exact Hm|].
+  apply IH; [|exact (Forall_inv_tail Hall)]. pose proof (Forall_inv Hall) as Hx. cbv beta in Hx. lia.
+Qed.
+
+Section VbuIff.
+Variable D : Type.
+Variable H : D -> D -> D.
+Variable deq : D -> D -> bool.
+Variable dflt : D.
+Hypothesis deq_spec : forall x y, deq x y = true <-> x = y.
+
+Lemma vbu_muts_spec : forall (ivs : list (Z * D)) cur,
+  zlength cur < 2 ^ 63 -> Forall (fun m => 0 <= fst m < zlength cur) ivs ->
+  vbu_muts D H deq (peaks_spec D H dflt cur) (zlength cur) ivs (map (fun m => path D H dflt cur (fst m)) ivs) =
+  Some (peaks_spec D H dflt (apply_muts D cur ivs)).
+Proof.
+  induction ivs as [|[i d] ivs IH]; intros cur Hl Hall; [reflexivity|].
+  pose proof (Forall_inv Hall) as Hi. pose proof (Forall_inv_tail Hall) as Hall'. cbn [fst] in Hi.
+  assert (Hl64 : zlength cur < 2 ^ 64) by (change (2 ^ 63) with 9223372036854775808 in Hl; change (2 ^ 64) with 18446744073709551616; clear - Hl; lia).
+  cbn [map vbu_muts fst].
+  rewrite (mutate_spec D H deq dflt cur i d Hi Hl64). cbn [obind].
+  assert (Hall2 : Forall (fun x => 0 <= x < zlength cur) (map fst ivs)).
+  { clear - Hall'. induction ivs as [|m ivs IHi]; [constructor|]. cbn [map]. constructor.
+    - exact (Forall_inv Hall').
+    - apply IHi. exact (Forall_inv_tail Hall'). }
+  destruct (batch_update_from_leaf_mutation_spec D H deq dflt deq_spec cur i d (map fst ivs) Hi Hl Hall2) as (md & Hb & _).
+  replace (map (fun m : Z * D => path D H dflt cur (fst m)) ivs) with (map (path D H dflt cur) (map fst ivs)) by (rewrite map_map; reflexivity).
+  match goal with |- context [batch_update_from_leaf_mutation ?a ?b ?c ?e ?f ?g] =>
+    replace (batch_update_from_leaf_mutation a b c e f g) with (Some (map (path D H dflt (upd cur i d)) (map fst ivs), md)) by (symmetry; exact Hb) end.
+  cbn [obind].
+  rewrite map_map. unfold apply_muts. cbn [fold_left fst snd].
+  rewrite <- (zlength_upd cur i d).
+  apply IH.
+  - rewrite zlength_upd. exact Hl.
+  - rewrite zlength_upd. exact Hall'.
+Qed.
+
+Lemma vbu_appends_spec : forall (ds : list D) cur, zlength cur + zlength ds < 2 ^ 63 ->
+  vbu_appends D H (peaks_spec D H dflt cur) (zlength cur) ds = Some (peaks_spec D H dflt (cur ++ ds)).
+Proof.
+  induction ds as [|d ds IH]; intros cur Hl.
+  - cbn [vbu_appends]. rewrite app_nil_r. reflexivity.
+  - cbn [vbu_appends].
+    assert (Hd : zlength (d :: ds) = 1 + zlength ds) by (unfold zlength; cbn [length]; lia).
+    pose proof (zlength_nonneg ds) as Hds. pose proof (zlength_nonneg cur) as Hc.
+    assert (Hl64 : zlength cur + 1 < 2 ^ 64) by (change (2 ^ 63) with 9223372036854775808 in Hl; change (2 ^ 64) with 18446744073709551616; lia).
+    rewrite (append_spec D H dflt cur d Hl64). cbn [obind].
+    unfold add64, two64. change (2 ^ 64) with 18446744073709551616 in Hl64.
+    destruct (Z.ltb_spec (zlength cur + 1) 18446744073709551616) as [_|Hbad]; [|exfalso; lia]. cbn [obind].
+    replace (zlength cur + 1) with (zlength (cur ++ [d])) by (rewrite zlength_app; reflexivity).
+    rewrite IH by (rewrite zlength_app; change (zlength [d]) with 1; lia).
+    rewrite <- app_assoc. reflexivity.
+Qed.
+
+(* C11: for distinct in-range indices with valid proofs, batch-update verification returns true exactly
+   when applying the mutations and then the appends yields the stated peaks *)
+Theorem verify_batch_update_iff (ls new_peaks appended : list D) (ivs : list (Z * D)) :
+  zlength ls + zlength appended < 2 ^ 63 ->
+  distinctb (map fst ivs) = true ->
+  Forall (fun m => 0 <= fst m < zlength ls) ivs ->
+  verify_batch_update D H deq (zlength ls, peaks_spec D H dflt ls) new_peaks appended
+                      (map (fun m => (fst m, snd m, path D H dflt ls (fst m))) ivs) =
+  Some (list_deq D deq (peaks_spec D H dflt (apply_muts D ls ivs ++ appended)) new_peaks).
+Proof.
+  intros Hl Hd Hall. unfold verify_batch_update. cbv zeta. cbn [fst snd].
+  pose proof (zlength_nonneg appended) as Hna. pose proof (zlength_nonneg ls) as Hnl.
+  assert (Eidx : map (fun x : leaf_mutation D => fst (fst x)) (map (fun m => (fst m, snd m, path D H dflt ls (fst m))) ivs) = map fst ivs).
+  { rewrite map_map. apply map_ext. intros [i d]. reflexivity. }
+  match goal with |- context [znodup ?l] => replace l with (map fst ivs) by (symmetry; exact Eidx) end.
+  rewrite znodup_distinctb, Hd. cbn [negb].
+  assert (Hall2 : Forall (fun x => x < zlength ls) (map fst ivs)).
+  { clear - Hall. induction ivs as [|m ivs IHi]; [constructor|]. cbn [map]. constructor.
+    - pose proof (Forall_inv Hall) as Hm. cbv beta in Hm. lia.
+    - apply IHi. exact (Forall_inv_tail Hall). }
+  replace ((acc_is_empty D (zlength ls, peaks_spec D H dflt ls) && negb (length (map fst ivs) =? 0)%nat)
+           || (negb (length (map fst ivs) =? 0)%nat && (zlength ls <=? zmax (map fst ivs) 0))) with false.
+  2:{ symmetry. destruct ivs as [|m ivs]; [cbn [map length Nat.eqb negb andb]; rewrite andb_false_r; reflexivity|].
+      cbn [map length Nat.eqb negb andb]. rewrite andb_true_r.
+      pose proof (Forall_inv Hall) as Hm. cbv beta in Hm.
+      unfold acc_is_empty. cbn [fst].
+      destruct (Z.eqb_spec (zlength ls) 0) as [E0|_]; [exfalso; lia|]. cbn [orb].
+      pose proof (zmax_lt (map fst (m :: ivs)) 0 (zlength ls) ltac:(lia) Hall2) as Hz.
+      cbn [map] in Hz. apply Z.leb_gt. exact Hz. }
+  assert (Emaps1 : map fst (map (fun m => (fst m, snd m, path D H dflt ls (fst m))) ivs) = ivs).
+  { rewrite map_map. cbn [fst]. rewrite <- (map_id ivs) at 2. apply map_ext. intros [i d]. reflexivity. }
+  assert (Emaps2 : map snd (map (fun m => (fst m, snd m, path D H dflt ls (fst m))) ivs) = map (fun m => path D H dflt ls (fst m)) ivs).
+  { rewrite map_map. apply map_ext. intros [i d]. reflexivity. }
+  match goal with |- context [vbu_muts _ _ _ _ _ ?l1 ?l2] =>
+    replace l1 with ivs by (symmetry; exact Emaps1);
+    replace l2 with (map (fun m => path D H dflt ls (fst m)) ivs) by (symmetry; exact Emaps2) end.
+  rewrite (vbu_muts_spec ivs ls ltac:(lia) Hall). cbn [obind].
+  assert (Elen : zlength (apply_muts D ls ivs) = zlength ls).
+  { clear. revert ls. induction ivs as [|m ivs IH]; intros ls; [reflexivity|].
+    unfold apply_muts. cbn [fold_left]. fold (apply_muts D (upd ls (fst m) (snd m)) ivs). rewrite IH. apply zlength_upd. }
+  rewrite <- Elen.
+  rewrite vbu_appends_spec by (rewrite Elen; exact Hl). cbn [obind]. reflexivity.
+Qed.
+
+End VbuIff.
